@@ -1046,6 +1046,8 @@ func callBuiltin(caller *frame, callpos token.Pos, fn *ssa.Builtin, args []value
 			return len(x)
 		case symStr:
 			return len(x.b)
+		case numStr:
+			return caller.i.x.numStrLen(x)
 		case array:
 			return len(x)
 		case *value:
